@@ -100,6 +100,10 @@ impl TzLocation<chrono_tz::Tz> {
     /// ```
     pub fn from_coords(coords: Coordinates) -> Self {
         use std::collections::HashMap;
+
+        #[cfg(ohrs_verif_loom)]
+        use crate::utils::verif_sync::LazyLock;
+        #[cfg(not(ohrs_verif_loom))]
         use std::sync::LazyLock;
 
         static TZ_NAME_FINDER: LazyLock<tzf_rs::DefaultFinder> =
